@@ -106,6 +106,7 @@ func remoteScript(w *hz.World, rc *hz.RConn, rr *rand.Rand, ras uint32, rid uint
 				g[i] = byte(rr.Uint32())
 			}
 			rc.SendMsg("GARBAGE", g)
+			desync = true
 		case 9:
 			hb := make([]byte, 30)
 			for i := range hb {
